@@ -229,6 +229,32 @@ CLAIMED = {
           "at 4 ulp of the shifted magnitude."),
     technique="TLA+ model (TLC exhaustive) + spec-generated behaviours (incl. fault at every step) replayed on the implementation",
     design_ref="DESIGN.md 4.5, 5 (C16)", engine="cadinject"),
+ "C03": dict(
+    text=("FrameLife.tla models the life of frames with pixel identities (1000*(row+1) + world channel): create (sizes / "
+          "from_data, both orientations), get_waterfall, copy, mutate, slice, de-drift, integrate, save (.fil/.h5), load, "
+          "load of a frequency sub-band; TLC checks SaveLoadFaithful / Row0Registered / DerivedIsCopy / DerivedKeepMeta over "
+          "all action sequences within the bound. Random behaviours drawn by TLC are replayed on real frames on 3 "
+          "geometries; after every action every live object must project onto TLC's (shape, orientation, band position, "
+          "pixel identities, start time, source name, consistent axes); every saved file is read back by blimpy.Waterfall "
+          "(each file column must hold the pixels of the world channel its header frequency says), by Frame(path), and by "
+          "the stand-alone helpers get_fs / get_ts / min_freq / max_freq / get_data (exact lengths, header-derived values)."),
+    note=("Trusted: TLC, blimpy as independent reader, float32 exactness of the identities, start time at 1e-4 s (MJD "
+          "header). blimpy's HDF5 reader needs >= 3 integrations and >= 3 channels: .h5 saves are generated only for such "
+          "frames. Sub-band loads are judged on registration, not on which edge channels blimpy selects."),
+    technique="TLA+ model (TLC exhaustive) + spec-generated behaviours replayed on the implementation with an independent file reader",
+    design_ref="DESIGN.md 4.4, 5 (C03)", engine="framelife"),
+ "C17": dict(
+    text=("Same FrameLife.tla behaviours; judged here: slice [l, r) has exactly columns l..r-1 of data and axis; de-drift by "
+          "q quarter-channels/row shifts row i by round(|q| i / 4) (half-even) towards the start of the drift, keeps row 0 "
+          "registered, trims to the common band, rejects rates leaving no channels (ValueError), both via the argument "
+          "and via metadata; integration sums / means per column and per row, Spectrum / TimeSeries objects carrying the "
+          "parent's axis, orientation, start time and source; normalised output an increasing affine image; derived "
+          "frames keep orientation / resolutions / start time / source name and hold their own data (Mutate never "
+          "changes another object)."),
+    note=("Trusted: as C03. Drift rates are multiples of a quarter channel per row on exactly representable geometries "
+          "plus BL hi-res; |q| <= 9/4 channels per row."),
+    technique="TLA+ model (TLC exhaustive) + spec-generated behaviours replayed on the implementation",
+    design_ref="DESIGN.md 4.4, 5 (C17)", engine="framelife"),
 }
 
 NOT_YET = "check not built yet in this round (planned, see DESIGN.md 5); no claim is made"
